@@ -200,6 +200,7 @@ def run(facts, tier):
     roots = [facts.fn("xml_info::attr_value_from_name")["id"]]
     reach, _ = facts.reachable(roots)
     c03.r03_3(facts, res, "R02-2r", reach, {})
+    c01.r01_13(facts, res, "R02-3")
     import guards
     guards.rule(facts, res, "R02-2g", [facts.fns[x] for x in reach if x in facts.fns], want=("G1", "G2", "G3", "G4"), floor=1)
     res.functions_analysed = res.extra["grammar"]["productions"]
